@@ -22,7 +22,6 @@ RESERVED = 'Z9$'          # the variable that carries the DRAW string
 MODES = {0: (0, 0, 0), 1: (320, 200, 4), 2: (640, 200, 2), 7: (320, 200, 16), 8: (640, 200, 16), 9: (640, 350, 16)}
 UNIT = {'U': (0, -1), 'D': (0, 1), 'L': (-1, 0), 'R': (1, 0), 'E': (1, -1), 'F': (1, 1), 'G': (-1, 1), 'H': (-1, -1)}
 DEPTH = 4
-MY_KNOWN = ('K33a',)
 
 
 class ExcludedByModel(Exception):
@@ -116,8 +115,9 @@ def trunc4(a):
 
 
 class Ref(object):
-    def __init__(self, tab, pen, scale, angle, attr):
+    def __init__(self, tab, pen, scale, angle, attr, nattr):
         self.tab = tab
+        self.nattr = nattr
         self.pen = tuple(pen)
         self.scale, self.angle, self.attr = scale, angle, attr
         self.segs = []
@@ -186,7 +186,8 @@ class Ref(object):
             elif k == 'C':
                 n = 0 if t[3] is None else self.num(t[3])
                 self.check(-99999, 99999, n)
-                self.attr = n
+                # brought into the attribute range of the mode, like every other graphics statement
+                self.attr = 0 if n < 0 else (self.nattr - 1 if n >= self.nattr else n)
             elif k == 'A':
                 n = 0 if t[3] is None else self.num(t[3])
                 self.check(0, 3, n)
@@ -210,6 +211,9 @@ class Ref(object):
 # Coq literals
 
 def zbytes(s):
+    """A byte string as a Coq term (a string literal when it is plain printable ASCII)."""
+    if all(32 <= ord(ch) < 127 and ch != '"' for ch in s):
+        return '(bs "%s"%%string)' % s
     return core.zl([ord(ch) for ch in s])
 
 
@@ -223,9 +227,9 @@ def zint(v):
 
 def coq_gstate(g):
     cur = 'None' if g['cur'] is None else '(Some %s)' % coq_pt(g['cur'])
-    return '(mkG %s %s %s %s %s %s %s)' % (cur, coq_pt(g['last']), 'true' if g['window'] else 'false',
-                                          zint(g['scale']), zint(g['angle']), zint(g['attr']),
-                                          'true' if g['text'] else 'false')
+    return '(mkG %s %s %s %s %s %s %s %s)' % (cur, coq_pt(g['last']), 'true' if g['window'] else 'false',
+                                             zint(g['scale']), zint(g['angle']), zint(g['attr']),
+                                             'true' if g['text'] else 'false', zint(g['nattr']))
 
 
 def f32(v):
@@ -236,7 +240,7 @@ class C33(core.Check):
     ID = 'C33'
     GEN = ['gen_draw']
     PROPS = 'props/C33.v'
-    MODEL_IMPORTS = ['gen.Gen_draw', 'model.Draw']
+    MODEL_IMPORTS = ['gen.Gen_draw', 'model.Draw', 'model.DrawStr']
     QUICK_CASES = 500
     THOROUGH_CASES = 5000
     TRUSTED = ['hand model model/Draw.v of Graphics.draw_/_draw/_draw_step and of the MLParser/CodeStream reader '
@@ -247,8 +251,7 @@ class C33(core.Check):
                '(a segment of the model is the argument tuple of that call), checked on pixels by the oracle',
                'POINT(0)/POINT(1) wrap the pen coordinate in a Single: compared exactly for |v| <= 2^24']
     PARTIAL = ('angles 90/270 and TA other than 0/180/360 (floating point; excluded by the property), P (paint), '
-               'VARPTR$ references and array elements as GML variables are outside the model; colours outside '
-               '0..255 that reach a pixel write are known finding K33a')
+               'VARPTR$ references and array elements as GML variables are outside the model')
     RULE = ('structured DRAW strings (moves with/without counts, S, C, B/N, absolute/relative M, A/TA 0/180/360, '
             'X substrings up to depth 3, =var; references, blanks, lower case, signs, leading zeros, spaced '
             'digits, omitted counts, range errors) and a malformed stream (character-level mutations), in '
@@ -273,6 +276,8 @@ class C33(core.Check):
             raw('TA180 U5 R3', 'U2', 'TA360 D1', 'A2 L4 A;'), raw('T A0'), raw('ta;u'), raw('BXC$;U5'),
             raw('NU5 D2', 'S8 E3', 'F'), raw('M+1,'), raw('M1'), raw('M,1'), raw(''), raw(';;; ;'),
             raw('C3 S4 BM10,10 R5 D5 L5 U5'), raw('Q'), raw('U5 ?'),
+            # D33a: colours outside the attributes of the mode (were: ValueError / invalid pixel value)
+            raw('C256 U5'), raw('C-1 U5'), raw('C4 U5'), raw('C99999 R3', 'D2'), raw('C=A%; F3'),
             {'mode': 0, 'vars': [], 'groups': [{'pre': [], 'draws': [{'raw': 'U5'}]}]},
             {'mode': 9, 'vars': [], 'groups': [{'pre': ['WINDOW (0,0)-(100,100)'], 'draws': [{'raw': 'U5 R7'}]},
                                                {'pre': ['PSET (3,3)'], 'draws': [{'raw': 'D2'}, {'raw': 'NR4'}]}]},
@@ -382,10 +387,12 @@ class C33(core.Check):
             elif r < 0.88:
                 if err:
                     v = rng.choice([100000, -100000])
-                elif rng.random() < 0.85:
+                elif rng.random() < 0.7:
                     v = rng.randrange(0, nattr)
                 else:
-                    v = rng.randrange(0, 256)
+                    # outside the attributes of the mode: clamped (D33a)
+                    v = rng.choice([nattr, nattr + 1, 4, 16, 17, 255, 256, 257, 1000, 32767, 32768, 99999,
+                                    -1, -2, -255, -256, -99999, rng.randrange(-300, 300)])
                 if v == 0 and rng.random() < 0.5:
                     toks.append(['C', pre, low, None, self.g_blank()])
                 else:
@@ -549,7 +556,7 @@ class C33(core.Check):
                 'scale': g._draw_scale if g._draw_scale is not None else 4,
                 'angle': g._draw_angle if g._draw_angle is not None else 0,
                 'attr': g._last_attr if g._last_attr is not None else 0,
-                'text': bool(g._mode.is_text_mode)}
+                'text': bool(g._mode.is_text_mode), 'nattr': int(g._num_attr)}
 
     def _set_vars(self, s, case):
         for name, kind, val in case['vars']:
@@ -570,10 +577,6 @@ class C33(core.Check):
 
             def rec_line(x0, y0, x1, y1, attr, pattern=0xffff):
                 calls.append((x0, y0, x1, y1, attr))
-                if not 0 <= attr <= 255:
-                    # known finding K33a: the pixel write would raise ValueError; the request is recorded,
-                    # the pixels are not written (re-run on its own witness by known_rerun)
-                    return None
                 return orig_line(x0, y0, x1, y1, attr, pattern)
 
             def rec_step(x0, y0, sx, sy, plot, goback):
@@ -705,7 +708,7 @@ class C33(core.Check):
                 break
             g0 = run['starts'][gi]
             pen0 = g0['cur'] if g0['cur'] is not None else g0['last']
-            ref = Ref(tab, pen0, g0['scale'], g0['angle'], g0['attr'])
+            ref = Ref(tab, pen0, g0['scale'], g0['angle'], g0['attr'], g0['nattr'])
             known = True
             lines = []
             for src in grp['draws']:
@@ -798,38 +801,6 @@ class C33(core.Check):
             except Exception:
                 self._drop_session()
                 return None
-
-    # ---------------------------------------------------------------------------------------------
-    # known finding K33a: a colour outside 0..255 reaches the pixel buffer
-
-    def known_match(self, finding, case, out):
-        if finding.get('id') not in MY_KNOWN:
-            return False
-        # (the adapter does not forward such requests, so this class cannot show up in a normal run)
-        run = self._cached(self.undescribe(case))
-        for st in run['stmts']:
-            if st['status'] == [2, 1] and not (0 <= st['gs']['attr'] <= 255):
-                return True
-        return False
-
-    def known_rerun(self, finding):
-        if finding.get('id') not in MY_KNOWN:
-            return False
-        w = finding.get('witness') or {}
-        case = {'mode': w.get('mode', 1), 'vars': [],
-                'groups': [{'pre': [], 'draws': [{'raw': w.get('draw', 'C256 U5')}]}]}
-        self.__dict__.setdefault('_runs', {}).pop(core.sha(case), None)
-        # the raw implementation, without the adapter's wrapper around _draw_line
-        s = self._session(case['mode'])
-        try:
-            s.set_variable(RESERVED, text_of(case['groups'][0]['draws'][0]).encode('latin-1'))
-            s.execute('DRAW ' + RESERVED)
-        except ValueError:
-            self._drop_session()
-            return True
-        except Exception:
-            self._drop_session()
-        return False
 
     def shrink_candidates(self, case):
         case = self.undescribe(case)
